@@ -252,6 +252,7 @@ func runC14(a *A) {
 	})
 	a.Rule("locks/guarded-by", 5, func() { a.lockRules("stream", "analyticFieldEngine") })
 	a.Rule("ownmap/placeholder-private", 1, func() { a.rulePlaceholderPrivate() })
+	a.Rule("flow/condition-args-every-row", 5, func() { a.ruleConditionArgsEveryRow() })
 }
 
 // rulePlaceholderPrivate: the placeholder columns through which an analytic call's value is handed to
@@ -316,6 +317,167 @@ func (a *A) rulePlaceholderPrivate() int {
 				"placeholder columns are written into a map created in this function",
 				"a placeholder column is written into "+other+", a map this function did not create: other fields evaluated for the same event (whole-row calls with a * argument, WHERE) see it as a column of the row")
 		})
+	}
+	return n
+}
+
+// mustPassUnder: does every path from fn's entry to a return execute an instruction accepted by pass,
+// when branches decided by assume follow only the decided edge and the edges accepted by excuse count
+// as passing? Returns the offending return, or nil.
+func mustPassUnder(fn *ssa.Function, pass func(ssa.Instruction) bool, assume func(v ssa.Value) Tri, excuse func(iff *ssa.If) (onTrue, onFalse bool)) ssa.Instruction {
+	type st struct {
+		b  *ssa.BasicBlock
+		ok bool
+	}
+	var eval func(v ssa.Value) Tri
+	eval = func(v ssa.Value) Tri {
+		if u, ok := v.(*ssa.UnOp); ok && u.Op == token.NOT {
+			return eval(u.X).not()
+		}
+		return assume(v)
+	}
+	seen := map[st]bool{}
+	var bad ssa.Instruction
+	var dfs func(b *ssa.BasicBlock, ok bool)
+	dfs = func(b *ssa.BasicBlock, ok bool) {
+		if bad != nil || seen[st{b, ok}] {
+			return
+		}
+		seen[st{b, ok}] = true
+		for _, in := range b.Instrs {
+			if pass(in) {
+				ok = true
+			}
+			if r, isRet := in.(*ssa.Return); isRet && !ok {
+				bad = r
+				return
+			}
+		}
+		if iff, isIf := b.Instrs[len(b.Instrs)-1].(*ssa.If); isIf {
+			onT, onF := excuse(iff)
+			switch eval(iff.Cond) {
+			case T:
+				dfs(b.Succs[0], ok || onT)
+			case F:
+				dfs(b.Succs[1], ok || onF)
+			default:
+				dfs(b.Succs[0], ok || onT)
+				dfs(b.Succs[1], ok || onF)
+			}
+			return
+		}
+		for _, s := range b.Succs {
+			dfs(s, ok)
+		}
+	}
+	dfs(fn.Blocks[0], false)
+	return bad
+}
+
+// ruleConditionArgsEveryRow: the boolean arguments of an analytic function (acc_xxx start/reset,
+// ignoreNull of had_changed/changed_col(s)/lag) are part of the function's definition on every row: a
+// reset row resets, a start row starts, whatever the row's main value is (NULL included). In every
+// state machine's Apply, with all optional arguments present, every path to a return evaluates each
+// condition argument — or leaves through the branch on which an earlier condition argument held
+// (reset fired: nothing else is looked at).
+func (a *A) ruleConditionArgsEveryRow() int {
+	toBool := a.Func("functions", "AnalyticToBool")
+	n := 0
+	for _, fn := range a.ModFuncs {
+		if fn.Pkg != a.Pkg("functions") || fn.Name() != "Apply" || fn.Blocks == nil || len(fn.Params) != 2 {
+			continue
+		}
+		args := fn.Params[1]
+		argIndex := func(v ssa.Value) (int64, bool) {
+			u, ok := v.(*ssa.UnOp)
+			if !ok || u.Op != token.MUL {
+				return 0, false
+			}
+			ia, ok := u.X.(*ssa.IndexAddr)
+			if !ok || ia.X != ssa.Value(args) {
+				return 0, false
+			}
+			k, ok := ia.Index.(*ssa.Const)
+			if !ok {
+				return 0, false
+			}
+			return k.Int64(), true
+		}
+		var conds []*ssa.Call
+		allInstrs(fn, func(in ssa.Instruction) {
+			if c, ok := in.(*ssa.Call); ok && c.Call.StaticCallee() == toBool {
+				if _, ok := argIndex(c.Call.Args[0]); ok {
+					conds = append(conds, c)
+				}
+			}
+		})
+		// len(args) is at least 8: every optional argument is present
+		assume := func(v ssa.Value) Tri {
+			bo, ok := v.(*ssa.BinOp)
+			if !ok {
+				return U
+			}
+			lc, ok := bo.X.(*ssa.Call)
+			if !ok {
+				return U
+			}
+			if b, ok := lc.Call.Value.(*ssa.Builtin); !ok || b.Name() != "len" || lc.Call.Args[0] != ssa.Value(args) {
+				return U
+			}
+			k, ok := bo.Y.(*ssa.Const)
+			if !ok {
+				return U
+			}
+			c := k.Int64()
+			switch bo.Op {
+			case token.GEQ:
+				if c <= 8 {
+					return T
+				}
+			case token.GTR:
+				if c < 8 {
+					return T
+				}
+			case token.LSS:
+				if c <= 8 {
+					return F
+				}
+			case token.LEQ:
+				if c < 8 {
+					return F
+				}
+			case token.EQL:
+				if c < 8 {
+					return F
+				}
+			case token.NEQ:
+				if c < 8 {
+					return T
+				}
+			}
+			return U
+		}
+		for _, c := range conds {
+			c := c
+			k, _ := argIndex(c.Call.Args[0])
+			n++
+			bad := mustPassUnder(fn, func(in ssa.Instruction) bool { return in == ssa.Instruction(c) }, assume,
+				func(iff *ssa.If) (bool, bool) {
+					for _, o := range conds {
+						if o != c && iff.Cond == ssa.Value(o) {
+							return true, false
+						}
+					}
+					return false, false
+				})
+			pos := c.Pos()
+			if bad != nil {
+				pos = bad.Pos()
+			}
+			a.Check(bad == nil, fmt.Sprintf("%s#args[%d]", fname(fn), k), pos,
+				"the condition argument is evaluated on every path to a return (all optional arguments present), or an earlier condition argument held",
+				fmt.Sprintf("a return is reachable without evaluating the condition argument args[%d]: a row that takes this path (for example a NULL main value) does not start/reset/apply its flag", k))
+		}
 	}
 	return n
 }
